@@ -347,7 +347,9 @@ func c17AppInfoMsg(a *c17App, runID string) []byte {
 	protocol.AppAddTraceObserverPort(b, a.toPort)
 	protocol.AppAddSpanQueueSize(b, 8)
 	protocol.AppAddSpanEventsMaxSamplesStored(b, 100)
-	protocol.AppAddLogEventsMaxSamplesStored(b, 100)
+	// the daemon scales the agent's per-minute log limit to the report period (tens of ms here):
+	// a small limit would scale to nothing and no log payload would ever be built
+	protocol.AppAddLogEventsMaxSamplesStored(b, 600000)
 	protocol.AppAddCustomEventsMaxSamplesStored(b, 100)
 	protocol.AppAddDockerId(b, docker)
 	app := protocol.AppEnd(b)
